@@ -212,6 +212,11 @@ theorem c04_timeout_timely (sent : Nat → Bool) (s : Rq) (ci : Nat) (c : Call) 
 theorem c04_unarmed_timer_never_fires (s : Rq) (ci : Nat) : s.timeoutIfArmed false (fun _ => false) ci = s := by
   simp [Rq.timeoutIfArmed]
 
+/-- regenerated from `protocol/src/request_id.rs`: the counter shared by a requestor and its clones wraps after 2^32 calls,
+    which is the `U32` of the model (a narrower counter would hand the id of a call that is still waiting, or whose
+    late reply is still under way, to a later call: its reply would then be returned to the wrong call) -/
+theorem c04_request_id_counter_width : 2 ^ Gen.Client.requestIdBits = U32 := by decide
+
 /-- Concurrent calls on one stream (any number of clones) get distinct ids as long as no more than 2^32 are
     made: the k-th call is given id k. -/
 theorem c04_ids_distinct (n : Nat) (hn : n ≤ U32) :
@@ -335,6 +340,7 @@ end Selium.Client
 #print axioms Selium.Client.c04_own_reply
 #print axioms Selium.Client.c04_late_reply_dropped
 #print axioms Selium.Client.c04_timeout
+#print axioms Selium.Client.c04_request_id_counter_width
 #print axioms Selium.Client.c04_ids_distinct
 #print axioms Selium.Client.setState_getElem?
 #print axioms Selium.Client.setState_length
